@@ -103,7 +103,7 @@ fn c13t_wait_all_with_gap_below_running_job() {
 
 #[kani::proof]
 #[kani::unwind(5)]
-fn c13t_wait_all_finished_or_none() {
+fn c13q_wait_all_finished_or_none() {
     let mut jobs = JobList::default();
     let job_control: bool = kani::any();
     let r = any_job_is_running(if job_control { On } else { Off })(&mut jobs);
